@@ -1,7 +1,7 @@
 CONSTANTS
   ReqAlphabet <- ReqSmall
   RespAlphabet <- RespSmall
-  MaxLen = 5
+  MaxLen = 6
   Bug = "none"
 SPECIFICATION ISpec
 INVARIANT Conforms
